@@ -40,6 +40,71 @@ theorem print_parse_roundtrip (e : UExpr Rat) (hc : e.coeff ≠ 0)
   refine ⟨syn (printAst e), tokens_roundtrip _, fun x hx => ?_⟩
   exact equiv_trans (layout_meaning _ (printAst_ok e hc hs) x hx) (print_parse_ast e)
 
+/-- **`a**-1` and `1/a` are the same expression**, for every sub-expression `a` that evaluates to a
+    monomial with non-zero coefficient: whenever the evaluator answers on both spellings, the answers
+    are `≈` (this is a statement about `evalP`, the function the driver runs on parsed text — the
+    general counterpart of the `inversePower` rows of the reference list of `spellings_equal`) -/
+theorem neg_one_power_is_reciprocal (a : PExpr) (x : UExpr Rat) (hx : evalP a = .ok (.mono x))
+    (hc : x.coeff ≠ 0) (v w : Val)
+    (h1 : evalP (.pow a (.neg (.num 1 0))) = .ok v) (h2 : evalP (.div (.num 1 0) a) = .ok w) :
+    ∃ p q, v = .mono p ∧ w = .mono q ∧ p.Equiv q := by
+  -- the quotient
+  simp only [evalP] at h2
+  obtain ⟨o, ho, h2⟩ := bind_ok h2
+  obtain ⟨x', hx', h2⟩ := bind_ok h2
+  have hx'' : evalP a = .ok x' := hx'
+  rw [hx] at hx''; cases hx''
+  have ho' := evalP_num_sem 1 o (by simpa [evalP] using ho)
+  rw [ho'] at h2
+  have hone : ((((1 : Nat) : Int) : Rat)) ≠ 0 := by decide
+  obtain ⟨q, rfl, hq⟩ := vDiv_sem (sx := ⟨(((1 : Nat) : Int) : Rat), []⟩) (sy := x) (equiv_refl _) (equiv_refl _) hone hc h2
+  -- the power
+  simp only [evalP] at h1
+  obtain ⟨x1, hx1, h1⟩ := bind_ok h1
+  rw [hx] at hx1; cases hx1
+  obtain ⟨y, hy, h1⟩ := bind_ok h1
+  have hy' := evalP_neg_num_sem 1 y (by simpa [evalP] using hy)
+  rw [hy'] at h1
+  have hm1 : (-(((1 : Nat) : Int) : Rat)) = -1 := by decide +kernel
+  rw [hm1] at h1
+  have e0 : ¬ ((-1 : Rat) = 0) := by decide
+  have ed : (-1 : Rat).den = 1 := rfl
+  have en : (-1 : Rat).num = -1 := rfl
+  simp only [vPow, List.isEmpty_nil, Bool.not_true, Bool.false_eq_true, if_false, e0, hc, ed, if_true, en] at h1
+  obtain ⟨cn, hcn, h1⟩ := bind_ok h1
+  have hcn' := numPowInt_neg_one hc hcn
+  have hcn0 : cn ≠ 0 := by
+    rw [hcn']; intro h0
+    have : (1 : Rat) / x.coeff * x.coeff = 1 := Rat.div_mul_cancel hc
+    rw [h0, Rat.zero_mul] at this
+    exact absurd this (by decide)
+  refine ⟨_, q, mkMono_ok h1 hcn0, rfl, ?_⟩
+  refine equiv_trans ⟨?_, fun t => ?_⟩ ⟨hq.1.symm, fun t => (hq.2 t).symm⟩
+  · show cn = (((1 : Nat) : Int) : Rat) / x.coeff
+    rw [hcn']; congr 1
+  · show expOf (normF (scaleF x.factors (-1))) t = expOf ([] ++ negF x.factors) t
+    rw [expOf_normF, expOf_scaleF, List.nil_append, expOf_negF]; grind
+
+/-- the same up to the end of `Unit.__new__` (`finish` = table look-up and `_get_unit_data_from_expr`):
+    if moreover every symbol of the answered monomial resolves in the table and no negative-scale
+    symbol (`lat`) sits under a fractional power (`factorFlags = (false, false)`), the unit is
+    constructed and its expression is `≈ e`.  Without that hypothesis the statement is false:
+    `sqrt(lat)` is answered by the evaluator and refused by `finish` (kept finding
+    `reparse|…|negative-scale-root`). -/
+theorem print_parse_roundtrip_unit (e : UExpr Rat) (hc : e.coeff ≠ 0)
+    (hs : ∀ p ∈ normF e.factors, Ordinary p.1) :
+    ∃ p, parseTokens (renderTokens (printAst e)) = some p ∧
+      ∀ x, evalP p = .ok (.mono x) → factorFlags x.factors = (false, false) →
+        finish (.mono x) = .ok x ∧ x.Equiv e := by
+  obtain ⟨p, hp, hx⟩ := print_parse_roundtrip e hc hs
+  refine ⟨p, hp, fun x h1 h2 => ⟨?_, hx x h1⟩⟩
+  simp only [finish, unitData, h2]
+
+theorem sqrt_lat_answered_but_refused :
+    answersMono (evalP (syn (printAst ⟨1, [("lat", (1 : Rat) / 2)]⟩))) = true ∧
+    isOrdinary "lat" = true ∧
+    (match parseUnit "sqrt(lat)" with | .error .unitParseError => true | _ => false) = true := by decide +kernel
+
 /-- every atomic symbol of the regenerated unit table is an ordinary symbol (kernel-decided), so the
     hypothesis of `print_parse_roundtrip` holds for every expression over table symbols -/
 theorem table_symbols_ordinary : lutKeys.all isOrdinary = true := by decide +kernel
